@@ -76,6 +76,7 @@ pub fn run(ctx: &Ctx) -> Report {
     "generated accepted torrents: valid typed core (single/multi, every optional key) + unknown keys inside and outside info (i64 ints, byte strings incl. non-UTF-8, lists, nested dicts, deep chains) + trailing bytes; \
      `show`, `show --json`, `show` from stdin, `link`; plus `create --link/--show` against a later `show` on the written file; non-trivial = carries an unknown key or trailing bytes; distinct by file hash",
   );
+  report.rule.push_str("; link from standard input / with --select-only / with --peer; trailing bytes that are a whole torrent; keys other programs write (`meta version`, `file tree`, ...); upper-case md5sum; up to 55 000 pieces; `show` on a pseudo-terminal 30..200 columns wide; create --dry-run against the real run on a tree of 1001 files; values that look like structure (`4:info`) in comment, source, announce, name, node");
   report.correspondences.push("C04.infohash: infohash printed by show/show --json/link = Imdlv.Infohash.infohashFromInput (SHA-1 of re-encoded info) = SHA-1 of findSpan".into());
   let mut inputs: Vec<Vec<u8>> = Vec::new();
   if let Some(rc) = super::replay_cases(ctx) {
